@@ -742,8 +742,10 @@ def emit(results, byteorder):
             opaque_all.append(("include/avtp/Byteorder.h[%s]" % br, o[0], o[1]))
     src.append("/-- the byte-order helpers the header selects for a host of byte order `e` -/")
     src.append("def byteorder : Endian → List Fn\n  | .little => Little.fns\n  | .big => Big.fns\n")
+    file_lists = []
     for rel, fns, opaque, tables in results:
         src.append("/-! ### %s -/\n" % rel)
+        here = []
         for f in fns:
             if f["name"] in seen:
                 continue        # static inline helpers of a header seen through several units
@@ -757,10 +759,15 @@ def emit(results, byteorder):
             src.append("def %s : Fn := { name := \"%s\", nparams := %d, nlocals := %d, body := %s_body }\n"
                        % (nm, f["name"], f["nparams"], f["nlocals"], nm))
             names.append(nm)
+            here.append(nm)
+        fl = "fns_" + lean_ident(os.path.splitext(os.path.basename(rel))[0])
+        src.append("/-- the functions of %s that lie inside the subset -/" % rel)
+        src.append("def %s : List Fn := [%s]\n" % (fl, ", ".join(here)))
+        file_lists.append(fl)
         for o in opaque:
             opaque_all.append((rel, o[0], o[1]))
     src.append("/-- every function of the library sources that lies inside the subset -/")
-    src.append("def lib : List Fn := [%s]\n" % ", ".join(names))
+    src.append("def lib : List Fn := %s\n" % " ++ ".join(file_lists))
     src.append("/-- the program as built for a host of byte order `e` -/")
     src.append("def prog (e : Endian) : List Fn := byteorder e ++ lib\n")
     src.append("/-- functions outside the subset (not part of `prog`), with the reason -/")
